@@ -26,8 +26,12 @@ def main():
     if a.replay:
         with open(a.replay) as f:
             rep = json.load(f)
-        rc = mod.replay(ctx, rep) if hasattr(mod, "replay") else 2
-        sys.exit(rc)
+        if hasattr(mod, "replay"):
+            sys.exit(mod.replay(ctx, rep))
+        # generic replay: show what was recorded and re-run the (deterministic, seeded) check that produced it
+        print("replaying %s: key=%s" % (a.replay, rep.get("key", rep.get("obligation"))))
+        print(json.dumps(rep.get("replay", rep.get("detail")), indent=1, default=str)[:4000])
+        ctx.seed = int(os.path.basename(a.replay).split("-")[1]) if os.path.basename(a.replay).split("-")[1].isdigit() else ctx.seed
     try:
         mod.run(ctx)
     except core.Broken as b:
